@@ -512,27 +512,44 @@ func doReplay(e *Engine, u *Unit, o *Obligation, fn *ssa.Function, repo string) 
 	if len(fn.FreeVars) > 0 {
 		return false, "", "closures are not replayed directly"
 	}
-	// 2. ask the solver again, with the probes
+	// 2. ask the solver again, with the probes; prefer small models (short slices, zero offsets)
 	script := strings.TrimSuffix(o.scriptText, "\n")
 	if i := strings.LastIndex(script, "(check-sat)"); i >= 0 {
-		script = script[:i] + "(check-sat)\n"
+		script = script[:i]
 	}
-	var sb strings.Builder
-	sb.WriteString(script)
-	sb.WriteString("(get-value (")
+	var sliceTerms []string
 	for _, p := range rc.probes {
-		sb.WriteString(p.term + "\n")
+		if strings.HasPrefix(p.term, "(s-len ") {
+			sliceTerms = append(sliceTerms, strings.TrimSuffix(strings.TrimPrefix(p.term, "(s-len "), ")"))
+		}
 	}
-	sb.WriteString("))\n")
 	tmpd, _ := os.MkdirTemp("", "govc-replay.")
 	defer os.RemoveAll(tmpd)
-	sf := filepath.Join(tmpd, "q.smt2")
-	os.WriteFile(sf, []byte(sb.String()), 0o644)
 	solver := o.Solver
 	if _, ok := solvers[solver]; !ok {
 		solver = "z3-new"
 	}
-	res := runSolver(solver, sf, 30)
+	var res solveResult
+	for _, bound := range []int{4, 40, -1} {
+		var sb strings.Builder
+		sb.WriteString(script)
+		if bound >= 0 {
+			for _, st := range sliceTerms {
+				sb.WriteString(fmt.Sprintf("(assert (and (<= (s-len %[1]s) %[2]d) (= (s-off %[1]s) 0) (<= (s-cap %[1]s) (+ (s-len %[1]s) 8))))\n", st, bound))
+			}
+		}
+		sb.WriteString("(check-sat)\n(get-value (")
+		for _, p := range rc.probes {
+			sb.WriteString(p.term + "\n")
+		}
+		sb.WriteString("))\n")
+		sf := filepath.Join(tmpd, "q.smt2")
+		os.WriteFile(sf, []byte(sb.String()), 0o644)
+		res = runSolver(solver, sf, 20)
+		if res.status == "sat" {
+			break
+		}
+	}
 	if res.status != "sat" {
 		return false, "", "second solver run did not reproduce the model (" + res.status + ")"
 	}
@@ -619,6 +636,7 @@ func doReplay(e *Engine, u *Unit, o *Obligation, fn *ssa.Function, repo string) 
 	sort.Strings(imps)
 	var file strings.Builder
 	file.WriteString("// Replay of obligation " + o.Name + "\n// clause: " + o.Src + "\n// generated by govc from the solver's counterexample; run inside the package with go test -overlay.\n")
+	file.WriteString("// pkgdir: v2" + strings.TrimPrefix(fn.Pkg.Pkg.Path(), "gitlab.com/gomidi/midi/v2") + "\n")
 	file.WriteString("package " + rc.pkg.Name() + "\n\nimport (\n")
 	for _, p := range imps {
 		file.WriteString("\t\"" + p + "\"\n")
@@ -654,7 +672,10 @@ func doReplay(e *Engine, u *Unit, o *Obligation, fn *ssa.Function, repo string) 
 
 func runHarness(repo string, fn *ssa.Function, harness, tmpd string) (*replayOutcome, string) {
 	rel := strings.TrimPrefix(fn.Pkg.Pkg.Path(), "gitlab.com/gomidi/midi/v2")
-	pkgDir := filepath.Join(repo, "v2", rel)
+	return runHarnessDir(filepath.Join(repo, "v2", rel), harness, tmpd)
+}
+
+func runHarnessDir(pkgDir string, harness, tmpd string) (*replayOutcome, string) {
 	hf := filepath.Join(tmpd, "zz_govc_replay_test.go")
 	os.WriteFile(hf, []byte(harness), 0o644)
 	ov := map[string]map[string]string{"Replace": {filepath.Join(pkgDir, "zz_govc_replay_test.go"): hf}}
